@@ -767,3 +767,29 @@ func controlSig(b *ssa.BasicBlock) []string {
 	sort.Strings(out)
 	return out
 }
+
+// enclosingLoopHeader returns the header of the innermost natural loop whose body contains b (nil if
+// none). Unlike a nearest-dominating-header search it does not attribute a loop's exit block to it.
+func enclosingLoopHeader(b *ssa.BasicBlock) *ssa.BasicBlock {
+	var best *ssa.BasicBlock
+	bestSize := 0
+	for _, h := range b.Parent().Blocks {
+		isHdr := false
+		for _, pr := range h.Preds {
+			if h.Dominates(pr) {
+				isHdr = true
+			}
+		}
+		if !isHdr {
+			continue
+		}
+		body := loopBlocks(h)
+		if !body[b] {
+			continue
+		}
+		if best == nil || len(body) < bestSize {
+			best, bestSize = h, len(body)
+		}
+	}
+	return best
+}
